@@ -16,4 +16,8 @@ echo "--- demo with change:"; go test -vet=off -count=1 $EXTRA -run "$PAT" ./$DD
 rm "$S/repo/$DDIR/zz_seed_demo_test.go"
 echo "--- suite with change:"; /verif/tools/suite.sh "$S/repo" | tail -2
 cd /verif; rm -rf "$S"
-echo "--- checks:"; /verif/tools/try_patch.sh "$OUT/change${N}.diff" | grep -v "exit=0"
+# the checks of the seed's own property first; all of them only if none of those fires
+OWN=$(echo "$OUT" | grep -o 'C[0-9][0-9]' | head -1)
+R=$(/verif/tools/try_patch.sh "$OUT/change${N}.diff" $OWN)
+if ! echo "$R" | grep -q "^== C.. fires\|infrastructure problem"; then R=$(/verif/tools/try_patch.sh "$OUT/change${N}.diff"); fi
+echo "--- checks:"; echo "$R" | grep -v "exit=0"
